@@ -21,6 +21,12 @@ type T6 struct{ ID int }
 type I1 interface{ I1() }
 type I2 interface{ I2() }
 
+// I12 is an interface that implements both I1 and I2 (only T2 implements it).
+type I12 interface {
+	I1
+	I2
+}
+
 func (T1) I1() {}
 func (T2) I1() {}
 func (T2) I2() {}
@@ -30,6 +36,7 @@ var typeByName = map[string]reflect.Type{
 	"T1": reflect.TypeOf(T1{}), "T2": reflect.TypeOf(T2{}), "T3": reflect.TypeOf(T3{}),
 	"T4": reflect.TypeOf(T4{}), "T5": reflect.TypeOf(T5{}), "T6": reflect.TypeOf(T6{}),
 	"I1": reflect.TypeOf((*I1)(nil)).Elem(), "I2": reflect.TypeOf((*I2)(nil)).Elem(),
+	"I12": reflect.TypeOf((*I12)(nil)).Elem(),
 	// U1 is an unnamed struct type: every Tk is assignable to it (and back) without being
 	// identical to it, so it tells type identity from mere assignability.
 	"U1": reflect.TypeOf(struct{ ID int }{}),
@@ -55,7 +62,7 @@ func localType2() reflect.Type {
 }
 
 // concrete type used when a function must produce a value of an interface type
-var ifaceImpl = map[string]string{"I1": "T1", "I2": "T3", "E": "PE"}
+var ifaceImpl = map[string]string{"I1": "T1", "I2": "T3", "E": "PE", "I12": "T2"}
 
 var nameByType = func() map[reflect.Type]string {
 	m := map[reflect.Type]string{}
